@@ -1,14 +1,14 @@
 /-
 C12 — the shape of a successful, effective traversal as an inductive relation (`Step`):
-five rules instead of the loop. Every effect theorem is an induction over `Step`.
+six rules instead of the loop. Every effect theorem is an induction over `Step`.
 -/
 import CaddyModel.C12.FrameLemmas
 
 namespace CaddyModel.C12
 
 /-- `Step m ell val parts node node' out`: the traversal of `parts` from `node` succeeds with
-    output `out`, ends in one of the two places where something happens (the last-part arm or
-    the array-destination arm) and leaves `node'` behind. -/
+    output `out`, ends in one of the places where something happens (the last-part arm or the
+    array-destination block, entered from a map or from a slice) and leaves `node'` behind. -/
 inductive Step (m : Method) (ell : Bool) (val : Json) : List Bytes → Json → Json → Option Json → Prop
   | special {part idxStr : Bytes} {kvs : Obj} {arr arr' : List Json} {o : Option Json} :
       lookup part kvs = some (.arr arr) → arrayOp m ell val idxStr arr = (arr', .ok o) →
@@ -25,44 +25,30 @@ inductive Step (m : Method) (ell : Bool) (val : Json) : List Bytes → Json → 
       (∀ arr, c = .arr arr → b ≠ []) →
       Step m ell val (a :: b) c c' o →
       Step m ell val (part :: a :: b) (.obj kvs) (.obj (replaceKey part c' kvs)) o
+  | specialArr {part idxStr : Bytes} {xs : List Json} {i : Int} {arr arr' : List Json} {o : Option Json} :
+      atoi part = some i → 0 ≤ i → i < xs.length → xs[i.toNat]? = some (.arr arr) →
+      arrayOp m ell val idxStr arr = (arr', .ok o) →
+      Step m ell val [part, idxStr] (.arr xs) (.arr (xs.set i.toNat (.arr arr'))) o
   | inArr {part r0 : Bytes} {r' : List Bytes} {xs : List Json} {i : Int} {c c' : Json} {o : Option Json} :
       atoi part = some i → 0 ≤ i → i < xs.length → xs[i.toNat]? = some c →
       Step m ell val (r0 :: r') c c' o →
       Step m ell val (part :: r0 :: r') (.arr xs) (.arr (xs.set i.toNat c')) o
 
-/-- side condition under which the loop cannot run off the end of `parts` inside an array -/
-def Guard (parts : List Bytes) (node : Json) (viaIndex : Bool) : Prop :=
-  ∀ xs, node = .arr xs → viaIndex = false → 2 ≤ parts.length
+/-- side condition under which the loop cannot run off the end of `parts` inside an array: an
+    array node is never entered with a single part left (its parent handles that case in the
+    array-destination block) -/
+def Guard (parts : List Bytes) (node : Json) : Prop :=
+  ∀ xs, node = .arr xs → 2 ≤ parts.length
 
-theorem nestedEnd_obj_cons (a : Bytes) (q : List Bytes) (kvs : Obj) (b : Bool) :
-    nestedEnd (a :: q) (.obj kvs) b = match lookup a kvs with | some c => nestedEnd q c false | none => false := by
-  cases h : lookup a kvs <;> simp [nestedEnd, h]
-
-theorem nestedEnd_arr_single (a : Bytes) (xs : List Json) (b : Bool) : nestedEnd [a] (.arr xs) b = b := by
-  simp [nestedEnd]
-
-theorem nestedEnd_arr_cons2 (a r0 : Bytes) (r' : List Bytes) (xs : List Json) (b : Bool) :
-    nestedEnd (a :: r0 :: r') (.arr xs) b =
-      match atoi a with
-      | some i => if 0 ≤ i then (match xs[i.toNat]? with | some c => nestedEnd (r0 :: r') c true | none => false) else false
-      | none => false := by
-  cases h : atoi a with
-  | none => simp [nestedEnd, h]
-  | some i =>
-    by_cases h0 : 0 ≤ i
-    · cases hx : xs[i.toNat]? <;> simp [nestedEnd, h, h0, hx]
-    · simp [nestedEnd, h, h0]
-
-/-- a successful traversal that does not end on an element of an array-in-an-array follows
-    the five rules -/
-theorem trav_step (m : Method) (ell : Bool) (val : Json) : ∀ (parts : List Bytes) (node : Json) (b : Bool) (o : Option Json),
-    parts ≠ [] → (trav m ell val parts node).2 = .ok o → nestedEnd parts node b = false → Guard parts node b →
+/-- a successful traversal follows the six rules -/
+theorem trav_step (m : Method) (ell : Bool) (val : Json) : ∀ (parts : List Bytes) (node : Json) (o : Option Json),
+    parts ≠ [] → (trav m ell val parts node).2 = .ok o → Guard parts node →
     Step m ell val parts node (trav m ell val parts node).1 o := by
   intro parts
   induction parts with
-  | nil => intro node b o h; exact absurd rfl h
+  | nil => intro node o h; exact absurd rfl h
   | cons part rest ih =>
-    intro node b o _ hok hne hg
+    intro node o _ hok hg
     cases node with
     | obj kvs =>
       rcases trav_obj_cases m ell val part rest kvs with ⟨arr, idxStr, rfl, hl, heq⟩ | ⟨rfl, heq⟩ | ⟨a', b', rfl, hns, heq⟩
@@ -72,55 +58,46 @@ theorem trav_step (m : Method) (ell : Bool) (val : Json) : ∀ (parts : List Byt
       · rw [heq] at hok ⊢
         exact .last (Prod.ext rfl hok)
       · rw [heq] at hok ⊢
-        rw [nestedEnd_obj_cons] at hne
         by_cases hc : (isNil (lookup part kvs) && m == .put) = true
         · rw [if_pos hc] at hok ⊢
           simp only [inNewObj] at hok ⊢
           simp at hc
-          refine .create hc.1 hc.2 (ih (.obj []) false o (by simp) hok ?_ ?_)
-          · rw [nestedEnd_obj_cons]; simp [lookup]
-          · intro xs hx; cases hx
+          exact .create hc.1 hc.2 (ih (.obj []) o (by simp) hok (by intro xs hx; cases hx))
         · rw [if_neg hc] at hok ⊢
           cases hl : lookup part kvs with
           | none => simp [hl] at hok
           | some c =>
-            simp only [hl, inObj] at hok hne hc ⊢
-            refine .inObj hl (by simpa using hc) (fun arr harr => hns arr (harr ▸ hl)) (ih c false o (by simp) hok hne ?_)
-            intro xs hx _
+            simp only [hl, inObj] at hok hc ⊢
+            refine .inObj hl (by simpa using hc) (fun arr harr => hns arr (harr ▸ hl)) (ih c o (by simp) hok ?_)
+            intro xs hx
             have := hns xs (hx ▸ hl)
             cases b' with
             | nil => exact absurd rfl this
             | cons _ _ => simp
     | arr xs =>
-      rw [trav_arr] at hok ⊢
-      cases ha : atoi part with
-      | none => simp [ha] at hok
-      | some i =>
-        simp only [ha] at hok ⊢
-        by_cases hoob : i < 0 ∨ i ≥ xs.length
-        · simp [hoob] at hok
-        · rw [if_neg hoob] at hok ⊢
-          cases hx : xs[i.toNat]? with
-          | none => simp [hx] at hok
-          | some c =>
-            simp only [hx, inArr] at hok ⊢
-            cases rest with
-            | nil =>
-              -- the loop would run off the end here: excluded by `nestedEnd`/`Guard`
-              rw [nestedEnd_arr_single] at hne
-              have := hg xs rfl hne
-              simp at this
-            | cons r0 r' =>
-              rw [nestedEnd_arr_cons2] at hne
-              have h0 : 0 ≤ i := by omega
-              simp only [ha, h0, if_true, hx] at hne
-              exact .inArr ha h0 (by omega) hx (ih c true o (by simp) hok hne (by intro _ _ h; cases h))
+      rcases trav_arr_cases m ell val part rest xs with ⟨_, heq⟩ | ⟨i, _, _, heq⟩ | ⟨i, c, ha, h0, hlt, hx, ⟨arr, idxStr, rfl, rfl, heq⟩ | ⟨hns, heq⟩⟩
+      · rw [heq] at hok; simp at hok
+      · rw [heq] at hok; simp at hok
+      · rw [heq] at hok ⊢
+        simp only [inArrayElem] at hok ⊢
+        exact .specialArr ha h0 hlt hx (Prod.ext rfl hok)
+      · rw [heq] at hok ⊢
+        simp only [inArr] at hok ⊢
+        have h2 := hg xs rfl
+        cases rest with
+        | nil => simp at h2
+        | cons r0 r' =>
+          refine .inArr ha h0 hlt hx (ih c o (by simp) hok ?_)
+          intro ys hy
+          cases r' with
+          | nil => exact absurd rfl (hns ys r0 hy)
+          | cons _ _ => simp
     | null => rw [trav_scalar (by simp) (by simp)] at hok; simp at hok
     | bool _ => rw [trav_scalar (by simp) (by simp)] at hok; simp at hok
     | num _ => rw [trav_scalar (by simp) (by simp)] at hok; simp at hok
     | str _ => rw [trav_scalar (by simp) (by simp)] at hok; simp at hok
 
-/-- a traversal that wrote something (only GET does) follows the five rules — no side
+/-- a traversal that wrote something (only GET does) follows the six rules — no side
     condition: running off the end of `parts` writes nothing -/
 theorem trav_step_out (m : Method) (ell : Bool) (val : Json) : ∀ (parts : List Bytes) (node : Json) (v : Json),
     (trav m ell val parts node).2 = .ok (some v) →
@@ -151,21 +128,17 @@ theorem trav_step_out (m : Method) (ell : Bool) (val : Json) : ∀ (parts : List
             simp only [hl, inObj] at hok hc ⊢
             exact .inObj hl (by simpa using hc) (fun arr harr => hns arr (harr ▸ hl)) (ih c v hok)
     | arr xs =>
-      rw [trav_arr] at hok ⊢
-      cases ha : atoi part with
-      | none => simp [ha] at hok
-      | some i =>
-        simp only [ha] at hok ⊢
-        by_cases hoob : i < 0 ∨ i ≥ xs.length
-        · simp [hoob] at hok
-        · rw [if_neg hoob] at hok ⊢
-          cases hx : xs[i.toNat]? with
-          | none => simp [hx] at hok
-          | some c =>
-            simp only [hx, inArr] at hok ⊢
-            cases rest with
-            | nil => simp [trav_nil] at hok
-            | cons r0 r' => exact .inArr ha (by omega) (by omega) hx (ih c v hok)
+      rcases trav_arr_cases m ell val part rest xs with ⟨_, heq⟩ | ⟨i, _, _, heq⟩ | ⟨i, c, ha, h0, hlt, hx, ⟨arr, idxStr, rfl, rfl, heq⟩ | ⟨hns, heq⟩⟩
+      · rw [heq] at hok; simp at hok
+      · rw [heq] at hok; simp at hok
+      · rw [heq] at hok ⊢
+        simp only [inArrayElem] at hok ⊢
+        exact .specialArr ha h0 hlt hx (Prod.ext rfl hok)
+      · rw [heq] at hok ⊢
+        simp only [inArr] at hok ⊢
+        cases rest with
+        | nil => simp [trav_nil] at hok
+        | cons r0 r' => exact .inArr ha h0 hlt hx (ih c v hok)
     | null => rw [trav_scalar (by simp) (by simp)] at hok; simp at hok
     | bool _ => rw [trav_scalar (by simp) (by simp)] at hok; simp at hok
     | num _ => rw [trav_scalar (by simp) (by simp)] at hok; simp at hok
